@@ -88,6 +88,64 @@ def reflected_eq(ctx):
             ctx.ob('T4.reflect', eq.fq, '__eq__ never re-dispatches the comparison of the same two operands to itself', True, loc=eq.loc)
 
 
+def touch_on_set(ctx):
+    """T9.touch: assigning a key -- new or already stored, with whatever value -- makes it the most recent one: every normal path
+    of __setitem__ (helpers inlined) puts a link in front of the anchor (a store into anchor[PREV]) or re-seats the anchor (the
+    eviction step).  A path that leaves early (e.g. "same value, nothing to do") leaves the key's recency stale."""
+    import ast
+    from rules.common import paths_of, txt, PrivInl
+    prog = ctx.program
+    for cls in ('cacheutils.LRI', 'cacheutils.LRU'):
+        ci = prog.cls(cls)
+        si = prog.resolve(ci, '__setitem__')
+        from rules.common import TryRaises
+        w, paths = paths_of(prog, si, recv=ci, model=TryRaises(prog, si, helpers=True))
+        bad = None
+        n = 0
+        for p in paths:
+            if p.kind != 'return':
+                continue
+            n += 1
+            front = any(o.kind == 'sub_store' and txt(o.val.slice) == 'PREV' and 'self._anchor' in txt(w.expand(o.val.value))
+                        for o in p.ops) or any(o.kind == 'attr_store' and txt(o.val) == 'self._anchor' for o in p.ops)
+            if not front and bad is None:
+                bad = p
+        if n == 0:
+            ctx.unknown('T9.touch', si.fq, 'no normal path', si.loc)
+        else:
+            ctx.ob('T9.touch', '%s.__setitem__' % cls, 'every assignment makes the key the most recent one (a link is put in front of the '
+                   'anchor on every normal path)', bad is None, loc=si.loc, detail='%d paths' % n, path=bad.describe() if bad else None)
+
+
+def kwargs_consumed(ctx):
+    """T9.kwsrc: update(E, **F) feeds the keyword items on every normal path, except where the path established `E is self`
+    (updating a cache with itself is the one documented no-op)."""
+    import ast
+    from rules.common import paths_of, txt, tests_on
+    prog = ctx.program
+    ci = prog.cls('cacheutils.LRI')
+    up = prog.func('cacheutils.LRI.update')
+    kw = up.node.args.kwarg.arg if up.node.args.kwarg else None
+    if kw is None:
+        return
+    src = up.params[1] if len(up.params) > 1 else 'E'
+    w, paths = paths_of(prog, up, recv=ci)
+    bad = None
+    n = 0
+    for p in paths:
+        if p.kind != 'return':
+            continue
+        n += 1
+        fed = any(o.kind == 'iter_start' and o.val is not None and kw in {x.id for x in ast.walk(w.expand(o.val)) if isinstance(x, ast.Name)}
+                  for o in p.ops) or any(o.kind == 'call' and any(isinstance(a, ast.Name) and a.id == kw for a in o.val.args) for o in p.ops)
+        same = any((t.replace(' ', '') in ('%sisself' % src, 'selfis%s' % src) and truth) or
+                   (t.replace(' ', '') in ('%sisnotself' % src, 'selfisnot%s' % src) and not truth) for t, truth, o in tests_on(w, p))
+        if not fed and not same and bad is None:
+            bad = p
+    ctx.ob('T9.kwsrc', up.fq, 'the keyword items of update() are fed on every normal path (except for update(self))', bad is None,
+           loc=up.loc, detail='%d paths' % n, path=bad.describe() if bad else None)
+
+
 def move_to_front(ctx):
     """T9.front: the private operation that hands out the link of an existing key as the newest one (used by every hit and
     by re-assignment) leaves that link immediately before the anchor on every normal path: the path stores it into
@@ -147,6 +205,8 @@ def run(ctx):
         n_sp += onepass.splice_shape(ctx, m)
     move_to_front(ctx)
     reflected_eq(ctx)
+    touch_on_set(ctx)
+    kwargs_consumed(ctx)
     from rules.common import check_default_returned
     for _c in ('cacheutils.LRI', 'cacheutils.LRU'):
         for _n in ('get', 'setdefault'):
